@@ -5,7 +5,7 @@
 set -u
 PATCH="$1"; OUT="$2"; shift 2
 SCR=$(mktemp -d /tmp/evalrepo.XXXXXX)
-git -C /repo archive HEAD | tar -x -C "$SCR"
+git -C /repo archive ${SEED_BASE:-HEAD} | tar -x -C "$SCR"
 applied=no
 if (cd "$SCR" && git init -q . && git apply --whitespace=nowarn "$PATCH" 2>/dev/null); then applied=yes
 elif (cd "$SCR" && patch -p1 -F3 -s --no-backup-if-mismatch < "$PATCH" >/dev/null 2>&1); then applied=yes; fi
@@ -13,7 +13,7 @@ if [ "$applied" = no ]; then echo "PATCH DOES NOT APPLY: $PATCH"; rm -rf "$SCR";
 if ! (cd "$SCR" && GOFLAGS=-mod=mod GOPROXY=off GOSUMDB=off go build ./... >/dev/null 2>&1); then echo "PATCHED TREE DOES NOT BUILD: $PATCH"; rm -rf "$SCR"; exit 2; fi
 mkdir -p "$OUT"
 for P in "$@"; do
-  VERIF_REPO="$SCR" VERIF_OUT_DIR="$OUT" /verif/check "$P" quick > "$OUT/$P.log" 2>&1
+  VERIF_REPO="$SCR" VERIF_OUT_DIR="$OUT" ${VERIF_HOME:-/verif}/check "$P" quick > "$OUT/$P.log" 2>&1
   rc=$?
   n=$(grep -c '^VIOLATION' "$OUT/$P.log")
   first=$(grep -A1 '^VIOLATION' "$OUT/$P.log" | sed -n 2p | cut -c1-160)
